@@ -163,6 +163,45 @@ mod opt {
         ran("hx_select_e2e::opt::ign_false")
     }
 
+    /// time budget: set at the benchmark, overridable from the runner
+    #[divan::bench(max_time = 100, sample_count = 2, sample_size = 2)]
+    fn mx() {
+        ran("hx_select_e2e::opt::mx")
+    }
+
+    #[divan::bench_group(max_time = 0)]
+    pub mod g0 {
+        use super::ran;
+
+        /// inherits a zero budget: never called
+        #[divan::bench(sample_count = 2, sample_size = 1)]
+        fn inherit0() {
+            ran("hx_select_e2e::opt::g0::inherit0")
+        }
+
+        /// the benchmark's own budget wins over the group's
+        #[divan::bench(max_time = 50, sample_count = 2, sample_size = 1)]
+        fn mx_over() {
+            ran("hx_select_e2e::opt::g0::mx_over")
+        }
+    }
+
+    #[divan::bench_group(counters = [divan::counter::ItemsCount::new(4u64)], sample_count = 1, sample_size = 1)]
+    pub mod gc {
+        use super::ran;
+
+        #[divan::bench]
+        fn inherit_items() {
+            ran("hx_select_e2e::opt::gc::inherit_items")
+        }
+
+        /// another kind added at the benchmark: both kinds are in effect
+        #[divan::bench(bytes_count = 2u64)]
+        fn plus_bytes() {
+            ran("hx_select_e2e::opt::gc::plus_bytes")
+        }
+    }
+
     #[divan::bench_group(sample_count = 4, sample_size = 2)]
     pub mod g1 {
         use super::ran;
